@@ -1,5 +1,90 @@
-//! C08 / C09 commands (tracks, placer, compile-to-raw).
+//! C08 / C09 commands: relative placement, track operations, compile-to-raw.
+use crate::util::*;
 use crate::CmdFn;
-pub fn commands() -> Vec<(&'static str, CmdFn)> { vec![] }
+use layout21raw as raw;
+use layout21tetris as t;
+use layout21utils::Ptr;
+use serde_json::{json, Value};
+use t::placement::{Align, Place, Placeable, RelativePlace, SepBy, Separation, Side};
+use t::coords::{PrimPitches, UnitSpeced};
 
-pub fn compile_digest(_input: &serde_json::Value) -> Result<String, String> { Err("not built yet".into()) }
+pub fn commands() -> Vec<(&'static str, CmdFn)> {
+    vec![("placer", placer), ("track_ops", track_ops), ("tetris_compile", tetris_compile)]
+}
+
+fn side_of(s: &str) -> Side { match s { "Left" => Side::Left, "Right" => Side::Right, "Top" => Side::Top, "Bottom" => Side::Bottom, _ => panic!("side") } }
+fn empty_stack() -> t::validate::ValidStack {
+    let mut rawlayers = raw::Layers::default();
+    let boundary_layer = Some(rawlayers.add(raw::Layer::from_pairs(0, &[(0, raw::LayerPurpose::Outline)]).unwrap()));
+    t::stack::Stack { units: raw::Units::default(), boundary_layer, prim: t::stack::PrimitiveLayer::new((100, 100).into()),
+        metals: Vec::new(), vias: Vec::new(), rawlayers: Some(Ptr::new(rawlayers)) }.validate().unwrap()
+}
+
+/// C09: {cells: {name: [w,h]}, insts: [...], arrays: [...]} -> placed instances of the top cell, in placement order
+fn placer(case: &Value) -> Value {
+    let mut lib = t::library::Library::new("plib");
+    let mut cellmap: std::collections::HashMap<String, Ptr<t::cell::Cell>> = Default::default();
+    for (name, wh) in case["cells"].as_object().unwrap() {
+        let lay = t::layout::Layout::new(name.clone(), 0, t::outline::Outline::rect(wh[0].as_i64().unwrap() as isize, wh[1].as_i64().unwrap() as isize).unwrap());
+        let p = lib.cells.add(t::cell::Cell::from(lay));
+        cellmap.insert(name.clone(), p);
+    }
+    let mut top = t::layout::Layout::new("top", 0, t::outline::Outline::rect(1000, 1000).unwrap());
+    // first pass: create all instances with a dummy place, so that relations can point at instances listed later
+    let insts: Vec<Ptr<t::instance::Instance>> = geta(case, "insts").iter().map(|i| Ptr::new(t::instance::Instance {
+        inst_name: gets(i, "name").into(), cell: cellmap[gets(i, "cell")].clone(), loc: (0isize, 0isize).into(),
+        reflect_horiz: getb(i, "rh"), reflect_vert: getb(i, "rv") })).collect();
+    let by_name = |n: &str| geta(case, "insts").iter().position(|i| gets(i, "name") == n).map(|k| insts[k].clone()).unwrap();
+    for (k, i) in geta(case, "insts").iter().enumerate() {
+        let pl = &i["place"];
+        let place: Place<t::coords::Xy<PrimPitches>> = if gets(pl, "k") == "abs" {
+            (pl["xy"][0].as_i64().unwrap() as isize, pl["xy"][1].as_i64().unwrap() as isize).into()
+        } else {
+            let side = side_of(gets(pl, "side"));
+            let horiz = matches!(side, Side::Left | Side::Right);
+            let dir = if horiz { raw::Dir::Horiz } else { raw::Dir::Vert };
+            let sepby = match gets(&pl["sep"], "k") {
+                "none" => None,
+                "pitches" => Some(SepBy::UnitSpeced(UnitSpeced::PrimPitches(PrimPitches::new(dir, geti(&pl["sep"], "n") as isize)))),
+                "sizeof" => Some(SepBy::SizeOf(cellmap[gets(&pl["sep"], "cell")].clone())),
+                _ => panic!("sep"),
+            };
+            let sep = if horiz { Separation::new(sepby, None, None) } else { Separation::new(None, sepby, None) };
+            Place::Rel(RelativePlace { to: Placeable::Instance(by_name(gets(pl, "to"))), side, align: Align::Side(side_of(gets(pl, "align"))), sep })
+        };
+        insts[k].write().unwrap().loc = place;
+    }
+    for p in &insts { top.instances.push(p.clone()); }
+    for a in geta(case, "arrays") {
+        let sepxy = (a["sep"][0].as_i64().unwrap() as isize, a["sep"][1].as_i64().unwrap() as isize);
+        let mk_sep = |s: (isize, isize)| Separation::new(
+            if s.0 != 0 { Some(SepBy::UnitSpeced(UnitSpeced::PrimPitches(PrimPitches::x(s.0)))) } else { None },
+            if s.1 != 0 { Some(SepBy::UnitSpeced(UnitSpeced::PrimPitches(PrimPitches::y(s.1)))) } else { None }, None);
+        let unit = match a["inner"].as_array().and_then(|x| x.first()) {
+            None => t::array::Arrayable::Instance(cellmap[gets(a, "cell")].clone()),
+            Some(inner) => t::array::Arrayable::Array(Ptr::new(t::array::Array { name: "inner".into(), unit: t::array::Arrayable::Instance(cellmap[gets(a, "cell")].clone()),
+                count: geti(inner, "count") as usize, sep: mk_sep((inner["sep"][0].as_i64().unwrap() as isize, inner["sep"][1].as_i64().unwrap() as isize)) })),
+        };
+        let arr = t::array::Array { name: "arrdef".into(), unit, count: geti(a, "count") as usize, sep: mk_sep(sepxy) };
+        let ai = t::array::ArrayInstance { name: gets(a, "name").into(), array: Ptr::new(arr),
+            loc: (a["xy"][0].as_i64().unwrap() as isize, a["xy"][1].as_i64().unwrap() as isize).into(), reflect_vert: getb(a, "rv"), reflect_horiz: getb(a, "rh") };
+        top.places.push(Placeable::Array(Ptr::new(ai)));
+    }
+    let topptr = lib.cells.add(t::cell::Cell::from(top));
+    match guarded(|| t::placer::Placer::place(lib, empty_stack())) {
+        Err(p) => json!({"id": id(case), "outcome":"panic","msg":p}),
+        Ok(Err(e)) => json!({"id": id(case), "outcome":"err","msg":err_str(e)}),
+        Ok(Ok(_)) => {
+            let c = topptr.read().unwrap();
+            let l = c.layout.as_ref().unwrap();
+            let placed: Vec<Value> = l.instances.iter().map(|i| { let i = i.read().unwrap();
+                json!({"name": i.inst_name, "cell": i.cell.read().unwrap().name, "rh": i.reflect_horiz, "rv": i.reflect_vert,
+                       "xy": match &i.loc { Place::Abs(xy) => json!([xy.x.num, xy.y.num]), Place::Rel(_) => json!("relative") }}) }).collect();
+            json!({"id": id(case), "outcome":"ok","placed": placed, "places_left": l.places.len()})
+        }
+    }
+}
+
+fn track_ops(_case: &Value) -> Value { json!({"outcome":"todo"}) }
+fn tetris_compile(_case: &Value) -> Value { json!({"outcome":"todo"}) }
+pub fn compile_digest(_input: &Value) -> Result<String, String> { Err("not built yet".into()) }
